@@ -52,6 +52,8 @@ pub enum Op {
     Poll { n: u8 },
     Step { picks: Vec<u16> },
     Settle,
+    /// behaviour-specific operation, interpreted by the check's `Ext` (C52: bypass list, C53: block/allow lists)
+    Ext { n: u8, kind: u8, arg: u8 },
 }
 
 #[derive(Clone, Debug, Serialize, Deserialize)]
@@ -165,9 +167,29 @@ pub struct Emission {
     pub peer: PeerId,
     pub one: Option<u64>,
     pub queued_at_log_seq: u64,
+    /// the command asks the handler to emit a NotifyBehaviour tagged with `n`
+    pub emit: bool,
 }
 
-struct Interp<B: Probes> {
+/// Extension points for checks whose behaviour is more than probes (C52, C53): behaviour-specific
+/// operations and an observer that runs wherever the C02 counters are compared (after every Swarm
+/// poll return and every API call).
+pub trait Ext<B: Probes> {
+    /// execute `Op::Ext { kind, arg }` on node `node`
+    fn op(&mut self, _w: &mut World<B>, _m: &[NodeModel], _node: usize, _kind: u8, _arg: u8) {}
+    /// called after every poll return / API call on node `node`; a returned (signature, detail) is a failure
+    fn observe(&mut self, _w: &mut World<B>, _m: &[NodeModel], _node: usize, _when: &str) -> Option<(String, Value)> {
+        None
+    }
+    /// called once at the end when the world settled and no failure was recorded
+    fn finish(&mut self, _w: &mut World<B>, _m: &[NodeModel]) -> Option<(String, Value)> {
+        None
+    }
+}
+impl<B: Probes> Ext<B> for () {}
+
+struct Interp<'x, B: Probes> {
+    ext: &'x mut dyn Ext<B>,
     w: World<B>,
     m: Vec<NodeModel>,
     fails: Vec<(String, Value)>,
@@ -179,7 +201,7 @@ struct Interp<B: Probes> {
     in_auth_expected: Vec<Option<PeerId>>, // per incoming: dialer's peer id (None = phantom)
 }
 
-impl<B: Probes> Interp<B>
+impl<B: Probes> Interp<'_, B>
 where
     B::ToSwarm: std::fmt::Debug,
 {
@@ -190,6 +212,9 @@ where
     }
 
     fn check_counters(&mut self, i: usize, when: &str) {
+        if let Some((sig, detail)) = self.ext.observe(&mut self.w, &self.m, i, when) {
+            self.fail(&sig, detail);
+        }
         let info = self.w.nodes[i].swarm.network_info();
         let c = info.connection_counters();
         let m = &self.m[i];
@@ -744,7 +769,7 @@ where
                 let nno = self.next_n;
                 let handler = if *any { NotifyHandler::Any } else { NotifyHandler::One(ConnectionId::new_unchecked(conn as usize)) };
                 let seq = self.w.log.lock().unwrap().recs.len() as u64;
-                self.emissions.push(Emission { node: i as u8, field: f as u8, n: nno, peer, one: if *any { None } else { Some(conn) }, queued_at_log_seq: seq });
+                self.emissions.push(Emission { node: i as u8, field: f as u8, n: nno, peer, one: if *any { None } else { Some(conn) }, queued_at_log_seq: seq, emit: matches!(cmd, HCmd::Emit(_)) });
                 self.flags.notifies += 1;
                 // handler-emitted events carry the notification number as their tag so that they can be correlated
                 let cmd = match cmd {
@@ -766,6 +791,11 @@ where
             }
             Op::Settle => {
                 self.settle();
+            }
+            Op::Ext { n, kind, arg } => {
+                let i = *n as usize % nn;
+                self.ext.op(&mut self.w, &self.m, i, *kind, *arg);
+                self.check_counters(i, "after ext op");
             }
         }
     }
@@ -797,6 +827,14 @@ fn run_generic<B: Probes>(case: &Case, make: impl FnMut(usize, simswarm::probe::
 where
     B::ToSwarm: std::fmt::Debug,
 {
+    run_with(case, make, &mut ())
+}
+
+/// Run a case over an arbitrary probe-containing behaviour with a check-specific extension.
+pub fn run_with<B: Probes>(case: &Case, make: impl FnMut(usize, simswarm::probe::SharedLog) -> B, ext: &mut dyn Ext<B>) -> RunResult
+where
+    B::ToSwarm: std::fmt::Debug,
+{
     let nn = case.nodes.clamp(1, 3) as usize;
     let peers: Vec<PeerId> = (0..nn).map(node_peer).collect();
     let conc = NonZeroU8::new(case.conc.clamp(1, 4)).unwrap();
@@ -805,6 +843,7 @@ where
         c.with_dial_concurrency_factor(conc).with_notify_handler_buffer_size(buf).with_idle_connection_timeout(std::time::Duration::from_secs(3600))
     });
     let mut it = Interp {
+        ext,
         w,
         m: (0..nn).map(|_| NodeModel::default()).collect(),
         fails: vec![],
@@ -839,6 +878,11 @@ where
     if it.fails.is_empty() && settled {
         final_checks(&mut it, &recs, case);
     }
+    if it.fails.is_empty() && settled {
+        if let Some((sig, detail)) = it.ext.finish(&mut it.w, &it.m) {
+            it.fail(&sig, detail);
+        }
+    }
     let links: Vec<LinkInfo> = it
         .w
         .links
@@ -871,7 +915,7 @@ where
     res
 }
 
-fn final_checks<B: Probes>(it: &mut Interp<B>, recs: &[Rec], case: &Case)
+fn final_checks<B: Probes>(it: &mut Interp<'_, B>, recs: &[Rec], case: &Case)
 where
     B::ToSwarm: std::fmt::Debug,
 {
@@ -1128,6 +1172,22 @@ pub fn case_strategy(max_nodes: u8, fields: std::ops::RangeInclusive<u8>, max_de
                 1u8..4,
                 proptest::collection::vec(op(nodes, w), 4..=max_ops),
             )
+        })
+        .prop_map(|(nodes, fields, denies, conc, buf, ops)| Case { nodes, fields, denies, conc, buf, ops })
+        .boxed()
+}
+
+/// `case_strategy` plus behaviour-specific `Op::Ext { n, kind in 0..kinds, arg in 0..args }` operations with weight `weight`
+/// (relative to the sum of the `Weights`).
+pub fn case_strategy_ext(max_nodes: u8, fields: std::ops::RangeInclusive<u8>, max_denies: usize, ops: std::ops::RangeInclusive<usize>, w: Weights, weight: u32, kinds: u8, args: u8) -> BoxedStrategy<Case> {
+    let total = 2 + w.dial + w.connect + w.resolve_ok + w.resolve_err + 2 * w.inbound + w.resolve_ok + 2 * w.close + w.disconnect + 2 * w.remote_close + w.notify + w.poll + w.step + w.settle;
+    (1..=max_nodes, fields)
+        .prop_flat_map(move |(nodes, fields)| {
+            let one = prop_oneof![
+                total => op(nodes, w),
+                weight => (0..nodes, 0..kinds, 0..args).prop_map(|(n, kind, arg)| Op::Ext { n, kind, arg }),
+            ];
+            (Just(nodes), Just(fields), proptest::collection::vec((0..nodes, 0..fields, decision(), 0u8..4), 0..=max_denies), 1u8..4, 1u8..4, proptest::collection::vec(one, ops.clone()))
         })
         .prop_map(|(nodes, fields, denies, conc, buf, ops)| Case { nodes, fields, denies, conc, buf, ops })
         .boxed()
